@@ -70,7 +70,7 @@ static CaseResult program_case(Tape &t, bool client)
 	dif::CaseOpt o1, o2; dif::Transcript t1, t2;
 	o1.force_residue = true; o1.residue_mode = 1; o1.residue_byte = 0; o1.tr = &t1;
 	std::string desc;
-	gen_residue(t, o2, "t.example.com", client, desc); o2.tr = &t2;
+	gen_residue(t, o2, "t.example.com", client, desc); o2.tr = &t2; o2.variant = 1;
 	Tape a = t, b = t;
 	CaseResult ra = client ? c06::run_case(a, o1) : c05::run_case(a, o1);
 	CaseResult rb = client ? c06::run_case(b, o2) : c05::run_case(b, o2);
